@@ -285,12 +285,14 @@ class ExecutionContext:
                     else:
                         return None
                 case LinearIR.OpCode.CALL:
-                    args = [
+                    # The callee gets its own argument list; ``args`` stays
+                    # the argument list of this activation
+                    callArgs = [
                         localScope[arg.Reference]
                         for arg in instruction.Arguments
                     ]
                     localScope[instruction.Reference] = self._Invoke(
-                        instruction.Function, args
+                        instruction.Function, callArgs
                     )
                 case LinearIR.OpCode.NEW_VARIABLE:
                     varType = instruction.Type
